@@ -452,12 +452,23 @@ fn real_main() {
             // replay TLC-generated behaviours of Types.tla on real Modules
             let hists = wv::builder::read_histories(&get("histories", ""));
             let shards: usize = get("shards", "1").parse().unwrap();
-            let lines: Vec<_> = hists.par_iter().enumerate().map(|(k, h)| wv::types::replay(&format!("t{}", k), h)).collect();
-            for s in 0..shards {
-                let part: Vec<_> = lines.iter().enumerate().filter(|(k, _)| k % shards == s).map(|(_, l)| l.clone()).collect();
-                cases::write_lines(&format!("{}.{}", out, s), &part);
+            // in pieces, so that the results of a large batch are never all in memory
+            use std::io::Write;
+            let mut files: Vec<_> = (0..shards).map(|s| std::io::BufWriter::new(std::fs::File::create(format!("{}.{}", out, s)).unwrap())).collect();
+            let mut base = 0usize;
+            for piece in hists.chunks(20_000) {
+                let lines: Vec<_> = piece.par_iter().enumerate().map(|(k, h)| wv::types::replay(&format!("t{}", base + k), h)).collect();
+                for (k, l) in lines.iter().enumerate() {
+                    let f = &mut files[(base + k) % shards];
+                    serde_json::to_writer(&mut *f, l).unwrap();
+                    f.write_all(b"\n").unwrap();
+                }
+                base += piece.len();
             }
-            println!("histories {}", lines.len());
+            for f in files.iter_mut() {
+                f.flush().unwrap();
+            }
+            println!("histories {}", base);
         }
         Some("trace-namemap") => {
             // replay TLC-generated behaviours of NameMap.tla on real Modules
